@@ -184,7 +184,8 @@ class Excel:
 
         return cls({
             'data': worksheets_data,
-            'titles': wb.sheetnames,
+            # chart sheets have a title but no cells: only the worksheets that were read are numbered
+            'titles': worksheets_titles,
             'suspicious_cells': suspicious_cells,
             'sheets_size': sheets_size,
         })
